@@ -608,4 +608,41 @@ theorem max?_eq_of_foldl_all (l1 l2 : List Int) (h : ∀ M, l1.foldl max M = l2.
       omega
     | cons y ys => exact max?_eq_of_foldl _ _ (by simp) (by simp) h
 
+/-- the least of the per-group minima is the minimum of the concatenation -/
+theorem foldl_min_groups : ∀ (gs : List (Int × List Pt)) (l : List Int) (M : Int),
+    l.map some = gs.map (fun g => (g.2.map (·.2)).min?) →
+    l.foldl min M = ((gs.flatMap (·.2)).map (·.2)).foldl min M
+  | [], [], _, _ => rfl
+  | [], _ :: _, _, h => by simp at h
+  | _ :: _, [], _, h => by simp at h
+  | g :: gs, m :: l, M, h => by
+    simp only [List.map_cons, List.cons.injEq] at h
+    simp only [List.foldl_cons, List.flatMap_cons, List.map_append, List.foldl_append]
+    rw [foldl_min_groups gs l (min M m) h.2]
+    congr 1
+    cases hv : g.2.map (·.2) with
+    | nil => rw [hv] at h; simp at h
+    | cons x xs =>
+      rw [hv, List.min?_cons'] at h
+      simp only [Option.some.injEq] at h
+      rw [List.foldl_cons, foldl_min_out, h.1]
+
+theorem foldl_max_groups : ∀ (gs : List (Int × List Pt)) (l : List Int) (M : Int),
+    l.map some = gs.map (fun g => (g.2.map (·.2)).max?) →
+    l.foldl max M = ((gs.flatMap (·.2)).map (·.2)).foldl max M
+  | [], [], _, _ => rfl
+  | [], _ :: _, _, h => by simp at h
+  | _ :: _, [], _, h => by simp at h
+  | g :: gs, m :: l, M, h => by
+    simp only [List.map_cons, List.cons.injEq] at h
+    simp only [List.foldl_cons, List.flatMap_cons, List.map_append, List.foldl_append]
+    rw [foldl_max_groups gs l (max M m) h.2]
+    congr 1
+    cases hv : g.2.map (·.2) with
+    | nil => rw [hv] at h; simp at h
+    | cons x xs =>
+      rw [hv, List.max?_cons'] at h
+      simp only [Option.some.injEq] at h
+      rw [List.foldl_cons, foldl_max_out, h.1]
+
 end Thanos.Downsample
